@@ -140,9 +140,14 @@ func (g *c15Graph) files(r *RNG) (fstest.MapFS, map[string][]string) {
 			fmt.Fprintf(&sb, "func init() { println(%q) }\n", m2)
 			markers[p.path] = append(markers[p.path], m1, m2)
 			if r.Intn(3) == 0 { // top-level code that needs local slots of the run frame (loop variables, an if-init)
-				m3 := fmt.Sprintf("loop %s %d", p.path, f)
 				k := 1 + r.Intn(4)
-				fmt.Fprintf(&sb, "var acc%d_%d = 0\nfor i := 0; i < %d; i++ {\n\tfor j := 0; j < 2; j++ {\n\t\tacc%d_%d += i + j\n\t}\n}\nif t := acc%d_%d; t >= 0 {\n\tprintln(%q)\n}\n", pi, f, k, pi, f, pi, f, m3)
+				// (the marker shows the value: k*k from the loops, +1 and +10 from the init function below - updates of a
+				// package-level variable by ++ and op= reach the variable that the package's other code reads)
+				m3 := fmt.Sprintf("loop %s %d = %d", p.path, f, k*k)
+				fmt.Fprintf(&sb, "var acc%d_%d = 0\nfor i := 0; i < %d; i++ {\n\tfor j := 0; j < 2; j++ {\n\t\tacc%d_%d += i + j\n\t}\n}\nif t := acc%d_%d; t >= 0 {\n\tprintln(\"loop %s %d =\", t)\n}\n", pi, f, k, pi, f, pi, f, p.path, f)
+				m4 := fmt.Sprintf("bump %s %d = %d", p.path, f, k*k+11)
+				fmt.Fprintf(&sb, "func bump%d_%d() {\n\tacc%d_%d++\n\tacc%d_%d += 10\n}\nfunc init() {\n\tbump%d_%d()\n\tprintln(\"bump %s %d =\", acc%d_%d)\n}\n", pi, f, pi, f, pi, f, pi, f, p.path, f, pi, f)
+				markers[p.path] = append(markers[p.path], m4)
 				markers[p.path] = append(markers[p.path], m3)
 			}
 			name := fmt.Sprintf("%s/%c%d.go", p.dir, 'a'+byte(r.Intn(20)), f)
@@ -156,7 +161,7 @@ func (g *c15Graph) files(r *RNG) (fstest.MapFS, map[string][]string) {
 			tag := Pick(r, []string{"!goat", "ignore", "linux", "!goat && linux", "windows || darwin"})
 			hdr := "//go:build " + tag + "\n\n"
 			// the constraint may follow blank lines and comments of both kinds
-			hdr = Pick(r, []string{"", "// Copyright header.\n\n", "/* Licence. */\n", "/*\n * Licence\n * text\n */\n\n// and a line comment\n", "/* a */ /* b */\n/* c\n*/ // d\n"}) + hdr
+			hdr = Pick(r, []string{"", "// Copyright header.\n\n", "/* Licence. */\n", "/*\n * Licence\n * text\n */\n\n// and a line comment\n", "/* a */ /* b */\n/* c\n*/ // d\n", "\ufeff", "\ufeff// bom, then a comment\n\n"}) + hdr
 			// an excluded file is host code: it need not stay inside the subset the interpreter parses
 			body := Pick(r, []string{"", "", "func Map[T any](xs []T, f func(T) T) []T {\n\tfor i := range xs {\n\t\txs[i] = f(xs[i])\n\t}\n\treturn xs\n}\n",
 				"var ch = make(chan int, 1)\n\nfunc pump() {\n\tgo func() { ch <- 1 }()\n\tselect {\n\tcase v := <-ch:\n\t\t_ = v\n\tdefault:\n\t}\n}\n",
